@@ -1,10 +1,12 @@
 import ElfioVerif.Driver.Common
 import ElfioVerif.Driver.C07
 import ElfioVerif.Driver.Load
+import ElfioVerif.Driver.C14
 open ElfioVerif.Drv
 
 def main (args : List String) : IO UInt32 := do
   match args with
   | ["c07"] => mainLoop C07.runCase; return 0
   | ["load"] => mainLoop Load.runCase; return 0
+  | ["c14"] => mainLoop C14.runCase; return 0
   | _ => IO.eprintln "usage: driver <family>"; return 2
